@@ -315,7 +315,8 @@ def parse_kind(s):
           break
       if c == 'dict' and cut is not None:
         return Kind(c, elem=parse_kind(inner[cut + 1:]), key=parse_kind(inner[:cut]), nullable=nullable)
-      return Kind(c, elem=parse_kind(inner), key=Kind('str') if c == 'dict' else None, nullable=nullable)
+      ek = parse_kind(inner)
+      return Kind(c, elem=ek, key=Kind('str') if c == 'dict' else (ek if c == 'set' else None), nullable=nullable)
   if ':' in s:
     tag, arg = s.split(':', 1)
     return Kind(tag, arg=arg, nullable=nullable)
